@@ -22,7 +22,7 @@ for pid in ids:
         "level_note": "Trusted base: " + "; ".join(m.get("trusted_base", [])) + ". Assumptions: " + "; ".join(m.get("assumptions", [])),
         "technique": m.get("technique", "Lean 4 theorems on a model + differential correspondence"),
     })
-hooks_commits = ["f8651cc", "d4804cd", "1104ca3"]
+hooks_commits = ["f8651cc", "d4804cd", "1104ca3", "fdda9ea"]
 man = {
  "version": 1,
  "setup_cmd": "./setup.sh",
